@@ -121,6 +121,17 @@ func main() {
 		}
 		ex.verifyFunc(fn, c)
 	}
+	var lnames []string
+	for n := range ld.ct.Lemmas {
+		lnames = append(lnames, n)
+	}
+	sort.Strings(lnames)
+	for _, n := range lnames {
+		if *onlyFn == "" || strings.Contains("lemma:"+n, *onlyFn) {
+			ex.topKey = "lemma:" + n
+			ex.proveLemma(ld.ct.Lemmas[n])
+		}
+	}
 	execTime := time.Since(t0).Seconds() - loadTime
 
 	if *dumpFn != "" {
